@@ -38,6 +38,17 @@ def _ufunc_of(run, cls: ClassInfo) -> Optional[str]:
     return None
 
 
+def _exponent_known_at(cfg, node, other) -> Optional[str]:
+    """the constant k such that `<other> == k` is known to hold whenever `node` executes (text of the constant), else None"""
+    for c_ in cfg.conds_true_at(node):
+        if isinstance(c_, ast.Compare) and len(c_.ops) == 1 and isinstance(c_.ops[0], ast.Eq):
+            if norm(c_.left) == other and isinstance(c_.comparators[0], ast.Constant):
+                return norm(c_.comparators[0])
+            if norm(c_.comparators[0]) == other and isinstance(c_.left, ast.Constant):
+                return norm(c_.left)
+    return None
+
+
 def r11_1(run):
     T = run.project.cls(TENSOR)
     sites = [s for s in opcontract.op_sites(run) if s.fi.cls is not None and s.fi.cls.qualname == TENSOR]
@@ -70,11 +81,7 @@ def r11_1(run):
                         why.append("None excluded by guard" if guarded else "None can reach the call")
                         continue
                     cls_ = facts(run).resolve_in(m, v_) if v_ is not None else None
-                    k_ = None
-                    for t, st in cfg.stmt.items():
-                        if cfg.label[t] == "If" and isinstance(st, ast.Compare) and norm(st.left) == other and isinstance(st.ops[0], ast.Eq) \
-                                and isinstance(st.comparators[0], ast.Constant) and cfg.edge_dominates(t, "true", d_):
-                            k_ = norm(st.comparators[0])
+                    k_ = _exponent_known_at(cfg, d_, other)
                     g_ = _ufunc_of(run, cls_) if isinstance(cls_, ClassInfo) else None
                     good = k_ is not None and g_ is not None and POW_SHORTCUTS.get(k_) == g_
                     okv = okv and good
@@ -88,11 +95,7 @@ def r11_1(run):
             # the documented power shortcuts
             if name in ("__pow__", "__ipow__") and got != uf:
                 nn = cfg.stmt_node_containing(s.call)
-                short = None
-                for t, st in cfg.stmt.items():
-                    if cfg.label[t] == "If" and isinstance(st, ast.Compare) and norm(st.left) == other and isinstance(st.ops[0], ast.Eq) \
-                            and isinstance(st.comparators[0], ast.Constant) and cfg.edge_dominates(t, "true", nn):
-                        short = POW_SHORTCUTS.get(norm(st.comparators[0]))
+                short = POW_SHORTCUTS.get(_exponent_known_at(cfg, nn, other) or "")
                 want = short or uf
             kind_ok = (s.kind == "_in_place_op") == (form == "inplace")
             ops = [norm(a) for a in s.tensors]
@@ -119,11 +122,11 @@ def r11_1(run):
             short = [s for s in ss if s.op_cls and _ufunc_of(run, s.op_cls) != uf]
             for s in short:
                 nn = cfg.stmt_node_containing(s.call)
-                guards = [t for t, st in cfg.stmt.items() if cfg.label[t] == "If" and "isinstance(" in norm(st) and cfg.edge_dominates(t, "true", nn)]
+                # every condition known to hold at the call (conjuncts of the dominating tests, whichever way they are nested or joined)
+                guards = [c_ for c_ in cfg.conds_true_at(nn) if "isinstance(" in norm(c_)]
                 okg = False
                 SCALARS = {"Number", "Real", "Integral", "int", "float", "numbers.Number", "np.number"}
-                for t in guards:
-                    tst = cfg.stmt[t]
+                for tst in guards:
                     disj = tst.values if isinstance(tst, ast.BoolOp) and isinstance(tst.op, ast.Or) else [tst]
                     good = True
                     for dj in disj:
